@@ -127,6 +127,25 @@ CHECKS = {
 }
 
 
+# additions of the last session (appended to the level text of each check)
+EXTRA = {
+ 'C01': ' Direct cases with running factors that are NOT positive semi-definite (restored through a state_dict round trip): the gradient must solve the defining system for the factors state_dict() reports, taken PSD for the eigen method.',
+ 'C02': ' Lone-sender cases (one registered bias-free layer, no clipping, no driver-side averaging, gradient tensors kept): no send buffer of a pending collective may be written (in-flight-write monitor) under three completion policies.',
+ 'C03': ' The persistence / commutation lemma the reduced Comm configurations (SpecPOR, SpecLIN) rest on is decided on TLC state graphs of the unreduced Next for every program set of a small scope, well-formed and ill-formed (harness/confluence.py). Cases with ill-conditioned factors (large inputs): the collectives issued must not depend on the data.',
+ 'C04': ' Models with an N-d Linear whose input / output gradient is non-contiguous (transposed activations).',
+ 'C05': ' Save / Rollback (load into the same instance) inside an accumulation window and between the passes and the step.',
+ 'C07': ' Cases with an indefinite preconditioner (negative sum <V, D>): the bound is stated with the absolute value.',
+ 'C08': ' Roles worldx / rowx: several HANDLES (None, explicit all-ranks group, two new_group results) over the same ranks share one bucket.',
+ 'C09': ' Models whose registration order differs from the lexicographic order of the layer names.',
+ 'C10': ' The global random state after a forward/backward with K-FAC registered equals the one without (large feature maps followed by Dropout).',
+ 'C13': ' W = 1 with torch.distributed INITIALISED is part of the lattice (the derived program is empty) and a dedicated sub-check: no collective at all, results equal to the run without torch.distributed.',
+ 'C16': ' Child names are data of the instance (SegTable: module, submodule, 0 ...); kinds homact / homlin: classes named Linear that are not torch.nn.Linear.',
+ 'C19': ' Variable fnkind: a function-valued parameter given as lambda, functools.partial, callable object or bound method is refused alike.',
+}
+for _k, _t in EXTRA.items():
+    CHECKS[_k]['text'] = CHECKS[_k]['text'] + _t
+
+
 def main():
     m = {
         'version': 1,
